@@ -147,6 +147,33 @@ def rowwise_checks(ck):
     for W in (16, 32, 64):
         if outs[W] != outs[8]:
             ck.disagree("result depends on the word size", {"W": W}, signature={"what": "wordsize"})
+    # a batch that fills its machine words exactly (no padding row is appended) handed over in another memory layout: every row must
+    # come out as in the C-ordered batch and as in the batch with one row more (a host path that skips the padding copy must still
+    # bring the rows into sample-major order)
+    import numpy as _np
+    import torch as _torch
+    for W in (8, 16, 32, 64):
+        net = compiled.build(model, W)
+        compiled.compile_net(net)
+        rows_w = [[rng.randrange(2) for _ in range(6)] for _ in range(2 * W)]
+        base = compiled.forward(net, rows_w)
+        longer = compiled.forward(net, rows_w + [[1, 0, 1, 0, 1, 0]])[:2 * W]
+        xw = _np.array(rows_w, dtype=bool)
+        variants = {"fortran": lambda: _np.asfortranarray(xw), "transposed-view": lambda: _np.ascontiguousarray(xw.T).T,
+                    "torch-transposed": lambda: _torch.tensor(xw.T.copy()).t(), "one-row-more": None}
+        for vname, mk in variants.items():
+            case = {"kind": "exact-words-layout", "W": W, "batch": 2 * W, "variant": vname}
+            ck.case(case, nontrivial=True, kind="exact-words-layout")
+            try:
+                got = longer if mk is None else [[int(v) for v in r] for r in compiled.quiet(net.forward, mk()).tolist()]
+            except Exception as e:
+                continue                                  # a refused layout is not a wrong result
+            if got != [[int(v) for v in r] for r in base]:
+                bad = next(i for i, (a, b) in enumerate(zip(got, base)) if a != [int(v) for v in b])
+                ck.disagree("a sample's result depends on the memory layout of a batch that fills its machine words exactly",
+                            dict(case, row_index=bad, row=rows_w[bad]), expected=[int(v) for v in base[bad]], observed=got[bad],
+                            signature={"what": "exact-words-layout", "variant": vname})
+                break
 
 
 def model_vs_impl(ck):
